@@ -432,7 +432,7 @@ func (s *sched) response(a *actor) *resolve.GraphQLResponse {
 	} else {
 		fetchOp = opType(a.req.op)
 		k1, k2, _ := keyParts(a.req.key)
-		dsID = "ds" + strconv.Itoa(k1)
+		dsID = "ds" + strconv.Itoa(k1) + "-" + strconv.Itoa(s.nonce) // a fresh fetchKey per schedule: the size-hint table is cold
 		input = `{"q":` + strconv.Itoa(k2) + `,"n":` + strconv.Itoa(s.nonce) + `}`
 	}
 	fetch := &resolve.SingleFetch{
@@ -1062,6 +1062,9 @@ func parseSx(s string) (sx, error) {
 
 func replayLine(line string, fails map[string][]byte) (string, error) {
 	x, err := parseSx(line)
+	if err == nil && x.isl && len(x.list) > 0 && x.list[0].atom == "c11h" {
+		return replayHint(x)
+	}
 	if err != nil || !x.isl || len(x.list) < 4 || x.list[0].atom != "c11" {
 		return "", fmt.Errorf("not a c11 case: %v", err)
 	}
@@ -1124,6 +1127,7 @@ func main() {
 	}
 	args := common.Args(os.Args[2:])
 	resolve.SetVerifYield(yieldHook)
+	initFetchSizeType()
 	fails := map[string][]byte{"inb": calibrate("inb"), "inbe2e": calibrate("inbe2e"), "sube2e": calibrate("sube2e")}
 	out := common.NewOut(args["out"])
 	defer out.Close()
@@ -1216,6 +1220,13 @@ func main() {
 				emit(randomSchedule(mode, r, randomReqs(r, n, fail)))
 			}
 		}
+		// the size-hint table of the subgraph single flight (hint.go)
+		genHint(r, tier, nrand/2, emit)
 		fmt.Fprintf(os.Stderr, "c11: %d schedules\n", total)
+	case "stress":
+		seed := common.ArgU64(args, "seed", 1)
+		for k := 0; k < common.ArgInt(args, "rounds", 4); k++ {
+			out.Line(runStress(seed+uint64(k), common.ArgInt(args, "n", 20000), 2+k%3))
+		}
 	}
 }
